@@ -464,10 +464,10 @@ def run(ctx):
     total = ctx.budget_s
     if total:
         ctx.budget_s = total * 0.5
-    ok = ctx.run_given(cases(), run_case, ctx.n(quick=160, thorough=3500))
+    ok = ctx.run_given(cases(), run_case, ctx.n(quick=130, thorough=3500))
     ctx.budget_s = total
     if ok and ctx.failure is None:
-        run_trace_machine(ctx, LinksMachine, ctx.n(quick=80, thorough=1800),
+        run_trace_machine(ctx, LinksMachine, ctx.n(quick=60, thorough=1800),
                           16 if ctx.tier == "quick" else 20)
 
 
